@@ -105,88 +105,151 @@ Proof.
   unfold normalize_original. destruct (strip_py T) eqn:E; [reflexivity|]. rewrite E. reflexivity.
 Qed.
 
-Lemma stringify_slash_nonempty u : nonempty (stringify (Some Slash) u) = true.
-Proof. reflexivity. Qed.
-
-(* the comparison string of __eq__ is the forward-slash canonical string *)
-Lemma y_cmp_canon T : y_cmp_string T = canon Slash T.
+(* YAMLPath(T).escaped on a fresh object is the escaped parse with separator inference *)
+Lemma y_escaped_new T : fst (y_escaped (y_new T)) = parse Auto true T.
 Proof.
-  unfold y_cmp_string, canon. rewrite parse_auto_es.
-  unfold y_set_separator, y_new, y_set_original. cbn [y_sep sepopt_eqb].
-  unfold y_unescaped. cbn [y_unesc seglist_nonempty]. unfold y_separator. cbn [y_sep y_orig y_unesc y_esc y_strd].
-  destruct (parse_es _ false _) as [u| |]; cbn; reflexivity.
+  rewrite parse_auto_es.
+  unfold y_escaped, y_new, y_set_original. cbn [y_esc seglist_nonempty]. unfold y_separator. cbn [y_sep y_orig y_unesc y_esc y_strd].
+  destruct (parse_es _ true _) as [u| |]; reflexivity.
 Qed.
 
-Lemma y_eq_canon T1 T2 :
-  y_eq (y_new T1) T2 = (do a <- canon Slash T1; do b <- canon Slash T2; Ok (String.eqb a b)).
+(* __eq__ (since the repair of F23): the escaped parses of the two texts, compared as plain values *)
+Lemma y_eq_parse T1 T2 :
+  y_eq (y_new T1) T2
+  = (do a <- parse Auto true T1; do b <- parse Auto true T2;
+     Ok (seglist_eqb (map comparable_seg a) (map comparable_seg b))).
 Proof.
-  unfold y_eq. rewrite !y_cmp_canon. unfold y_new, y_set_original. cbn [y_orig].
-  unfold canon at 1. rewrite parse_auto_es, normalize_idem, <- parse_auto_es. reflexivity.
+  unfold y_eq. rewrite !y_escaped_new. unfold y_new at 1, y_set_original. cbn [y_orig].
+  rewrite (parse_auto_es true (normalize_original T1)), normalize_idem, <- parse_auto_es. reflexivity.
 Qed.
 
-(* for keys without a dot the forward-slash canonical text depends on the segments only *)
-Lemma esc_with_ext_on E E' k :
-  (forall c, str_in c k = true -> mem_ascii c E = mem_ascii c E') -> esc_with E k = esc_with E' k.
+(* ---- the comparison of plain values decides equality ---- *)
+Lemma smethod_eqb_eq a b : smethod_eqb a b = true <-> a = b.
+Proof. destruct a, b; split; intros H; try reflexivity; discriminate H. Qed.
+Lemma keyword_eqb_eq a b : keyword_eqb a b = true <-> a = b.
+Proof. destruct a, b; split; intros H; try reflexivity; discriminate H. Qed.
+Lemma cop_eqb_eq a b : cop_eqb a b = true <-> a = b.
+Proof. destruct a, b; split; intros H; try reflexivity; discriminate H. Qed.
+Lemma segtype_eqb_eq a b : segtype_eqb a b = true <-> a = b.
+Proof. destruct a, b; split; intros H; try reflexivity; discriminate H. Qed.
+Lemma opt_segtype_eqb_eq a b : opt_segtype_eqb a b = true <-> a = b.
 Proof.
-  induction k as [|c r IH]; intros H; [reflexivity|]. cbn [esc_with].
-  rewrite (H c) by (cbn; rewrite Ascii.eqb_refl; reflexivity).
-  rewrite IH; [reflexivity|]. intros d Hd. apply H. cbn. rewrite Hd. destruct (Ascii.eqb d c); reflexivity.
+  destruct a as [a|], b as [b|]; cbn; split; intros H; try reflexivity; try discriminate H.
+  - apply segtype_eqb_eq in H. subst. reflexivity.
+  - injection H as ->. apply segtype_eqb_eq. reflexivity.
 Qed.
 
-Lemma key_set_slash sepc (x : sseg) c :
-  (sepc = "."%char \/ sepc = "/"%char) -> Ascii.eqb c "."%char = false ->
-  mem_ascii c (key_set sepc (plain_x x) ++ key_specials "/"%char)%list = mem_ascii c (key_specials "/"%char).
+Ltac eqb_fwd :=
+  repeat match goal with
+  | H : (_ && _)%bool = true |- _ => apply andb_true_iff in H; destruct H
+  | H : String.eqb _ _ = true |- _ => apply String.eqb_eq in H; subst
+  | H : Z.eqb _ _ = true |- _ => apply Z.eqb_eq in H; subst
+  | H : Bool.eqb _ _ = true |- _ => apply Bool.eqb_prop in H; subst
+  | H : smethod_eqb _ _ = true |- _ => apply smethod_eqb_eq in H; subst
+  | H : keyword_eqb _ _ = true |- _ => apply keyword_eqb_eq in H; subst
+  | H : cop_eqb _ _ = true |- _ => apply cop_eqb_eq in H; subst
+  end.
+
+Lemma attrs_eqb_refl a : attrs_eqb a a = true.
 Proof.
-  intros Hs Hc. destruct x as [sg st]. unfold key_set, plain_x. cbn [fst snd].
-  destruct (st_quote st); destruct Hs as [-> | ->]; all_ascii c; try discriminate Hc; vm_compute; reflexivity.
+  destruct a; cbn; rewrite ?String.eqb_refl, ?Z.eqb_refl, ?Bool.eqb_reflx; try reflexivity.
+  - replace (smethod_eqb m m) with true by (symmetry; apply smethod_eqb_eq; reflexivity). reflexivity.
+  - replace (keyword_eqb k k) with true by (symmetry; apply keyword_eqb_eq; reflexivity). reflexivity.
+  - replace (cop_eqb op op) with true by (symmetry; apply cop_eqb_eq; reflexivity). reflexivity.
 Qed.
 
-Lemma body_canon_same sp1 sp2 first sg st1 st2 :
-  no_dot_key (sg, st1) = true ->
-  body_x "/"%char (restyle (sep_char sp1) first (plain_x (sg, st1)))
-  = body_x "/"%char (restyle (sep_char sp2) first (plain_x (sg, st2))).
+Lemma attrs_eqb_eq a b : attrs_eqb a b = true <-> a = b.
 Proof.
-  intros Hn. destruct sg as [ty at_]. destruct ty as [[]|]; try reflexivity; destruct at_; try reflexivity.
-  cbn [no_dot_key] in Hn. apply negb_true_iff in Hn.
-  cbn [restyle body_x plain_x fst snd st_quote].
-  transitivity (esc_with (key_specials "/"%char) s).
-  - apply esc_with_ext_on. intros c Hc. apply key_set_slash; [destruct sp1; auto|].
-    destruct (Ascii.eqb c "."%char) eqn:E; [|reflexivity]. apply Ascii.eqb_eq in E. subst c. rewrite Hn in Hc. discriminate.
-  - symmetry. apply esc_with_ext_on. intros c Hc. apply key_set_slash; [destruct sp2; auto|].
-    destruct (Ascii.eqb c "."%char) eqn:E; [|reflexivity]. apply Ascii.eqb_eq in E. subst c. rewrite Hn in Hc. discriminate.
+  split; [|intros ->; apply attrs_eqb_refl].
+  destruct a, b; cbn [attrs_eqb]; intros H; try discriminate H; eqb_fwd; reflexivity.
 Qed.
 
-Lemma needs_sep_restyle sepc1 sepc2 first sg st1 st2 :
-  needs_sep (fst (restyle sepc1 first (plain_x (sg, st1)))) = needs_sep (fst (restyle sepc2 first (plain_x (sg, st2)))).
-Proof. reflexivity. Qed.
-
-Lemma render_canon_same sp1 sp2 : forall l1 l2 first,
-  segs_of l1 = segs_of l2 -> forallb no_dot_key l1 = true ->
-  render_go_x "/"%char first (restyle_list (sep_char sp1) first (map plain_x l1))
-  = render_go_x "/"%char first (restyle_list (sep_char sp2) first (map plain_x l2)).
+Lemma seg_eqb_eq a b : seg_eqb a b = true <-> a = b.
 Proof.
-  induction l1 as [|[sg1 st1] r1 IH]; intros l2 first Hs Hn; destruct l2 as [|[sg2 st2] r2]; try discriminate Hs; [reflexivity|].
-  cbn in Hs. injection Hs as -> Hs. cbn [forallb] in Hn. apply andb_true_iff in Hn. destruct Hn as [Hn1 Hn2].
-  cbn [map restyle_list render_go_x].
-  rewrite (body_canon_same sp1 sp2 first sg2 st1 st2 Hn1), (IH r2 false Hs Hn2).
-  rewrite (needs_sep_restyle (sep_char sp1) (sep_char sp2) first sg2 st1 st2). reflexivity.
+  destruct a as [t1 a1], b as [t2 a2]. unfold seg_eqb. cbn [fst snd]. rewrite andb_true_iff, opt_segtype_eqb_eq, attrs_eqb_eq.
+  split; [intros [-> ->]; reflexivity | intros H; injection H as -> ->; split; reflexivity].
+Qed.
+
+Lemma seglist_eqb_eq : forall a b, seglist_eqb a b = true <-> a = b.
+Proof.
+  induction a as [|x r IH]; intros [|y t]; cbn [seglist_eqb]; split; intros H; try reflexivity; try discriminate H.
+  - apply andb_true_iff in H. destruct H as [H1 H2]. apply seg_eqb_eq in H1. apply IH in H2. subst. reflexivity.
+  - injection H as -> ->. apply andb_true_iff. split; [apply seg_eqb_eq | apply IH]; reflexivity.
+Qed.
+
+(* ---- on well-formed segments the plain values determine the segment: str()
+   of keyword and collector terms is one-to-one ---- *)
+Lemma length_app_s (a b : string) : String.length (a ++ b) = String.length a + String.length b.
+Proof. induction a; cbn; [reflexivity | f_equal; auto]. Qed.
+
+Lemma app_inv_tail_s (t : string) : forall a b : string, (a ++ t = b ++ t)%string -> a = b.
+Proof.
+  induction a as [|c r IH]; intros b H; destruct b as [|d s]; [reflexivity | | |].
+  - exfalso. apply (f_equal String.length) in H. cbn in H. rewrite length_app_s in H. lia.
+  - exfalso. apply (f_equal String.length) in H. cbn in H. rewrite length_app_s in H. lia.
+  - cbn in H. injection H as -> H. f_equal. apply IH. exact H.
+Qed.
+
+Lemma keyword_str_inj i k p j l q : keyword_str i k p = keyword_str j l q -> i = j /\ k = l /\ p = q.
+Proof.
+  unfold keyword_str. rewrite !T_spell_kw. intros H.
+  destruct i, j, k, l; cbn in H; try discriminate H;
+    inversion H as [H1]; apply (app_inv_tail_s ")]") in H1; subst; repeat split; reflexivity.
+Qed.
+
+Lemma collector_str_inj o e p f : collector_str o e = collector_str p f -> o = p /\ e = f.
+Proof.
+  unfold collector_str. rewrite !T_spell_cop. intros H.
+  destruct o, p; cbn in H; try discriminate H;
+    inversion H as [H1]; apply (app_inv_tail_s ")") in H1; subst; split; reflexivity.
+Qed.
+
+Lemma pair_astr_inj (ty ty' : option segtype) a b : (ty, AStr a) = (ty', AStr b) -> a = b.
+Proof. intros H. injection H. auto. Qed.
+
+Lemma comparable_inj p1 p2 sg1 st1 sg2 st2 :
+  wf_seg p1 (sg1, st1) = true -> wf_seg p2 (sg2, st2) = true ->
+  comparable_seg sg1 = comparable_seg sg2 -> sg1 = sg2.
+Proof.
+  intros W1 W2 H.
+  destruct sg1 as [[[]|] a1]; try discriminate W1; destruct a1; try discriminate W1;
+    destruct sg2 as [[[]|] a2]; try discriminate W2; destruct a2; try discriminate W2;
+    cbn [comparable_seg] in H; try discriminate H; try exact H.
+  - apply pair_astr_inj in H. apply collector_str_inj in H. destruct H as [-> ->]. reflexivity.
+  - apply pair_astr_inj in H. apply keyword_str_inj in H. destruct H as (-> & -> & ->). reflexivity.
+Qed.
+
+Lemma comparable_map_inj : forall l1 l2 p1 p2,
+  wf_go p1 l1 = true -> wf_go p2 l2 = true ->
+  map comparable_seg (segs_of l1) = map comparable_seg (segs_of l2) -> segs_of l1 = segs_of l2.
+Proof.
+  induction l1 as [|[sg1 st1] r1 IH]; intros [|[sg2 st2] r2] p1 p2 W1 W2 H; try discriminate H; [reflexivity|].
+  cbn [wf_go] in W1, W2. apply andb_true_iff in W1. destruct W1 as [A1 B1].
+  apply andb_true_iff in W2. destruct W2 as [A2 B2].
+  cbn in H. injection H as H1 H2. cbn. f_equal.
+  - eapply comparable_inj; eassumption.
+  - eapply IH; eassumption.
+Qed.
+
+(* clause 3 for ANY two texts that parse: == is the comparison of the parsed segments as plain values *)
+Theorem eq_parsed T1 T2 s1 s2 :
+  parse Auto true T1 = Ok s1 -> parse Auto true T2 = Ok s2 ->
+  exists b, y_eq (y_new T1) T2 = Ok b /\ (b = true <-> map comparable_seg s1 = map comparable_seg s2).
+Proof.
+  intros P1 P2. rewrite y_eq_parse, P1, P2. cbn [bind]. eexists. split; [reflexivity|]. apply seglist_eqb_eq.
 Qed.
 
 Theorem eq_iff sp1 sp2 l1 l2 :
-  wfc sp1 l1 = true -> wfc sp2 l2 = true ->
-  forallb no_dot_key l1 = true -> forallb no_dot_key l2 = true ->
+  wf sp1 l1 = true -> wf sp2 l2 = true ->
   dot_text_ok sp1 (render_ref sp1 l1) = true -> dot_text_ok sp2 (render_ref sp2 l2) = true ->
   exists b, y_eq (y_new (render_ref sp1 l1)) (render_ref sp2 l2) = Ok b
             /\ (b = true <-> segs_of l1 = segs_of l2).
 Proof.
-  intros W1 W2 N1 N2 D1 D2.
-  rewrite y_eq_canon, (canon_is sp1 Slash l1 W1 D1), (canon_is sp2 Slash l2 W2 D2). cbn [bind].
-  eexists. split; [reflexivity|]. split.
-  - intros E. apply String.eqb_eq in E.
-    pose proof (canonical sp1 Slash l1 _ W1 D1 (canon_is sp1 Slash l1 W1 D1)) as P1.
-    pose proof (canonical sp2 Slash l2 _ W2 D2 (canon_is sp2 Slash l2 W2 D2)) as P2.
-    rewrite E in P1. rewrite P1 in P2 by discriminate. specialize (P2 ltac:(discriminate)).
-    injection P2 as P2. exact P2.
-  - intros E. apply String.eqb_eq. unfold canon_of, render_x. cbn [sep_char].
-    rewrite (render_canon_same sp1 sp2 l1 l2 true E N1). reflexivity.
+  intros W1 W2 D1 D2.
+  destruct (eq_parsed (render_ref sp1 l1) (render_ref sp2 l2) (segs_of l1) (segs_of l2)) as (b & E & Hb).
+  - apply parse_render_auto; [exact W1 | intros ->; exact D1].
+  - apply parse_render_auto; [exact W2 | intros ->; exact D2].
+  - exists b. split; [exact E|]. rewrite Hb. split; [|intros ->; reflexivity].
+    destruct (wf_split _ _ W1) as [G1 _]. destruct (wf_split _ _ W2) as [G2 _].
+    eapply comparable_map_inj; eassumption.
 Qed.
